@@ -127,6 +127,10 @@ func (c *Compiler) Compile(node parser.Node) error {
 			if err := c.Compile(stmt); err != nil {
 				return err
 			}
+			// constant indexes are 2-byte operands
+			if n := c.numConstants(); n > 65536 {
+				return c.errorf(stmt, "too many constants (%d > 65536)", n)
+			}
 		}
 	case *parser.ExprStmt:
 		if err := c.Compile(node.Expr); err != nil {
@@ -1217,6 +1221,14 @@ func (c *Compiler) addConstant(o Object) int {
 		c.printTrace(fmt.Sprintf("CONST %04d %s", len(c.constants)-1, o))
 	}
 	return len(c.constants) - 1
+}
+
+func (c *Compiler) numConstants() int {
+	for c.parent != nil {
+		// module compilers use their parent's constants array
+		c = c.parent
+	}
+	return len(c.constants)
 }
 
 func (c *Compiler) addInstruction(b []byte) int {
